@@ -297,6 +297,9 @@ package stake
 //@   assert@call(ProcessNotSignedBlock,0): !vote.SignedLastBlock && $arg1 == bheight(blockCtx) - 1 && $arg0 == delg_at(ctrler.delegateeLedger, lkey(content(vote.Validator.Address)), true)   [C14]
 //@   assert@call(DelAllStakes,0): $arg0 == delg_at(ctrler.delegateeLedger, lkey(content(vote.Validator.Address)), true) && govSignedWindow[ctrler.govParams] - notSigned < govMinSigned[ctrler.govParams]   [C14]
 //@   assert@store(Stake.RefundHeight,0): $value == bheight(blockCtx) + govLazyReward[ctrler.govParams]          [C12,C14]
+//@   assert@call(SetFinality,0): $arg0 == delg_at(ctrler.delegateeLedger, lkey(content(vote.Validator.Address)), true)   [C11,C14]
+//@   assert@call(SetFinality,1): $arg0 == _s0 && $target == ctrler.frozenLedger                               [C11,C12]
+//@   assert@call(DelFinality,0): $target == ctrler.delegateeLedger                                          [C11]
 //@   loop 0: invariant cons_ok && blockHeight == bheight(blockCtx) && bheight(blockCtx) == old(bheight(blockCtx)) && ctrler.delegateeLedger == old(ctrler.delegateeLedger) && ctrler.frozenLedger == old(ctrler.frozenLedger) && ctrler.rewardLedger == old(ctrler.rewardLedger) && ctrler.govParams == old(ctrler.govParams) && ctrler.stakeLimiter == old(ctrler.stakeLimiter) && blockCtx.GovHandler == old(blockCtx.GovHandler)
 //@   loop 1: invariant cons_ok && blockHeight == bheight(blockCtx) && bheight(blockCtx) == old(bheight(blockCtx)) && ctrler.delegateeLedger == old(ctrler.delegateeLedger) && ctrler.frozenLedger == old(ctrler.frozenLedger) && ctrler.rewardLedger == old(ctrler.rewardLedger) && ctrler.govParams == old(ctrler.govParams) && ctrler.stakeLimiter == old(ctrler.stakeLimiter) && blockCtx.GovHandler == old(blockCtx.GovHandler)
 //@   loop 1: invariant issuedReward != nil && immuDelegateeLedger != nil
